@@ -337,10 +337,11 @@ Section WorldUniq.
     - apply wnu_none. reflexivity.
     - (* Construct *)
       destruct (w_ctl w) as [m0|] eqn:Em; [exact N|].
-      destruct (construct po lab (w_ccs w) outs svc1 svc2 (map node_view (w_nodes w))) as [[m fx] pan] eqn:Ec.
-      cbn [fst]. destruct Ho as [H1 H2]. apply wnu_apply_effects.
+      destruct (construct po lab (with_default dp (w_ccs w)) outs svc1 svc2 (map node_view (w_nodes w))) as [[m fx] pan] eqn:Ec.
+      cbn [fst]. destruct Ho as (H1 & H2 & Hdp). apply wnu_apply_effects.
+      assert (Hgood : Forall good_obj (with_default dp (w_ccs w))) by (apply with_default_good; [exact Hdp|exact (wi_ccs w I)]).
       intros m1 E. cbn in E. destruct pan; [discriminate|]. inversion E; subst m1.
-      eapply construct_nu; [exact (wi_ccs w I)| |exact H1|exact H2|exact Ec].
+      eapply construct_nu; [exact Hgood| |exact H1|exact H2|exact Ec].
       rewrite Forall_forall. intros n Hn. apply in_map_iff in Hn. destruct Hn as (a & <- & Ha). apply wf_node_view. eapply in_anodes_wf; eassumption.
     - (* StartInformers *)
       destruct (w_ctl w) as [m|] eqn:Em; [|exact N]. destruct (w_synced w); [exact N|]. apply (wnu_same w); [exact N|first [reflexivity|cbn; symmetry; exact Em|cbn; exact Em]].
